@@ -409,12 +409,12 @@ example :
 (minimal local model of `_cookBuildStep` / `_preparePackageStep`; the full builder model is C01's) -/
 
 /-- **handover_pruned** (build step): if the directory exists and its stored digest differs from the
-digest of the step now mapped to it, the workspace is emptied and its state reset, both before
-the script runs, and the script does run. -/
+digest of the step now mapped to it, the stored state is dropped, the workspace is emptied and its
+state reset to the new digest, all before the script runs, and the script does run. -/
 theorem handover_pruned_build {σ ι : Type} [DecidableEq σ] [DecidableEq ι] (force : Bool) (old : Option σ) (new : σ)
     (storedInputs : Option ι) (inputs : ι) (hdiff : old ≠ some new) :
     cookBuild false true force old new storedInputs inputs =
-      [PrepOp.emptyDir, PrepOp.resetState new, PrepOp.run] := by
+      [PrepOp.invalidate, PrepOp.emptyDir, PrepOp.resetState new, PrepOp.run] := by
   simp [cookBuild, hdiff]
 
 /-- **handover_pruned** (package step): something is there and the stored digest differs ⇒ the
@@ -422,7 +422,7 @@ workspace is emptied (or the stale file/symlink of a shared package removed) and
 theorem handover_pruned_package {σ : Type} [DecidableEq σ] (fileOrLink : Bool) (old : Option σ) (new : σ)
     (hdiff : old ≠ some new) :
     preparePackage true fileOrLink old new =
-      [if fileOrLink then PrepOp.unlink else PrepOp.emptyDir, PrepOp.resetState new] := by
+      [PrepOp.invalidate, if fileOrLink then PrepOp.unlink else PrepOp.emptyDir, PrepOp.resetState new] := by
   simp [preparePackage, hdiff]
 
 /-- conversely a directory whose stored digest matches is left alone -/
